@@ -135,6 +135,34 @@ UNIT = {
  'doc': 'documents built from scratch: page tree with promised references, trailer assembly, derived writers of Page/PageTree/Catalog',
  'timeout': 900,
  'rlimit': 30,
+ # BOUNDED native stand-in for the end-to-end sentence of C10 (never counted as proved): the real public API on a finite
+ # universe of documents, an independent structural scanner of the bytes, reload and comparison with what was given.
+ 'native': {'tests': [
+    {'name': 'built_documents_reload_equal_and_are_well_formed', 'code': 'built_docs_bounded.rs', 'place': 'pdf/tests/verif_build_bounded.rs',
+     'fn': 'PdfBuilder::build', 'props': ['C10'], 'tier': 'quick', 'timeout': 900,
+     'bound': '218 documents built with PdfBuilder / CatalogBuilder / PageBuilder (+ Storage::create for indirect fonts and streams), saved to memory, '
+              'reloaded with FileOptions::uncached(): 0..3 pages; all 8 present/absent patterns of Media/Crop/TrimBox x 1..3 pages; each of 21 coordinates '
+              '{0, +-1, 0.5, -0.25, 595.276, 612, 841.89, 0.001, +-2^24, 2147483520, +-2^31, 2^32, +-3e9, 4e9, +-1e12, f32::MAX} at each position of '
+              'a rectangle and at all four, as MediaBox, CropBox and TrimBox; /Rotate in {0, 90, 180, 270, -90, 360, i32::MAX, i32::MIN}; 4 sets of extra '
+              'entries (none / real / name+integer+string+boolean+array+nested dictionary / reference to a stream) x Metadata+LGIDict+VP given or not x '
+              '6 operation sequences (empty, path, text, the shorthand triggers \' " TD v y s b b*, graphics state + colour + marked content, all '
+              'concatenated); resources = none | Type1 + TrueType + Type0/CIDFontType0 + Type0/CIDFontType2 fonts (indirect, Lazy) + an ExtGState with '
+              'every public entry incl. /Font [ref size], on every subset of 1..3 pages, each font kind also alone; a Type3 font (FontData::Other) must be '
+              'refused or reload as Type3; information dictionary = none | 3 string sets (ASCII; delimiters, CR, LF, empty, UTF-16BE, bytes 00 7f 80 ff; '
+              'all absent) x Trapped True/False/Unknown/absent x CreationDate/ModDate over 16 zones (Z00\'00 = also what a date without a zone '
+              'reads as, +01\'00 +05\'30 +14\'00 +00\'45 +23\'59 +00\'00 -08\'00 -03\'30 -09\'30 -00\'30 -00\'45 -12\'00 -23\'59 -00\'00 Z05\'30) x 4 date-times '
+              '(0000-01-01 00:00:00, 9999-12-31 23:59:59, 2024-03-10 08:15:07, month/day 99) x presence patterns. Not compared: catch-all `_other` of '
+              'Font / CIDFont / GraphicsStateParameters, dictionary entry order; no -0.0 / NaN / infinity. + 9 single damages to a good file that the '
+              'scanner must report. ~0.2 s run, ~15 s build',
+     'contract': 'C10 on the real bytes: the file opens; num_pages() and pages() give the pages in the given order (same object as get_page(i), '
+                 'get_page(n), get_page(n+1) fail); MediaBox/CropBox/TrimBox equal (presence and f32 bits); Rotate, Metadata, LGIDict, VP, the extra '
+                 'entries, the operation sequence (Debug text), every font (/Subtype, FontData variant, every typed entry, descendants) and the '
+                 'ExtGState equal; every information entry equal; AND an independent hand-written scanner (own tokenizer, object reader and '
+                 'cross-reference stream decoder, no crate code) finds: %PDF-x.y first; startxref = offset of a /Type /XRef stream object, %%EOF last; '
+                 'every in-use entry points at the `n g obj` header of that object; /Size above every object number defined or listed; for every '
+                 'stream `endstream` follows exactly /Length bytes after the `stream` line; the body is a gap-free sequence of well-formed objects, '
+                 'each with its own in-use entry; every `n g R` in any object or the trailer has an in-use entry with that generation'},
+ ]},
  'tolerances': {
    'TOL_PAGE_COUNT_FITS_U32': 'page lists longer than u32::MAX (beyond every architectural limit of PDF, ISO 32000-1 Annex C: '
                               'integers up to 2^31-1, 8,388,607 indirect objects) are not constrained: `/Count` is `len as u32`',
